@@ -240,6 +240,25 @@ def cli_case(arg):
         compare("layout:single-pack", lay)
         subprocess.run([G.REAL_GIT, "--git-dir", lay, "gc", "-q"], env=env, stdout=-1, stderr=-1)
         compare("layout:after-gc", lay)
+        # what a partial clone whose filter omitted nothing looks like: the pack is a promisor pack, a promisor remote is configured
+        if G.make_promisor(lay):
+            compare("layout:promisor-pack", lay)
+            # ... and objects created locally afterwards (loose, not promised by anybody) next to it
+            lay2 = os.path.join(d, "lay-promisor-mixed")
+            shutil.copytree(g0, lay2)
+            subprocess.run([G.REAL_GIT, "--git-dir", lay2, "repack", "-dq"], env=env, stdout=-1, stderr=-1)
+            for dp, dns, fns in os.walk(os.path.join(lay, "objects", "pack")):
+                pass
+            half = [o for o in objs[1::2]]
+            p = subprocess.run([G.REAL_GIT, "--git-dir", lay2, "pack-objects", "-q", os.path.join(lay2, "objects", "pack", "pack")],
+                               input=("\n".join(half) + "\n").encode(), env=env, stdout=subprocess.PIPE, stderr=subprocess.PIPE)
+            if p.returncode == 0 and p.stdout.strip():
+                open(os.path.join(lay2, "objects", "pack", "pack-%s.promisor" % p.stdout.decode().strip()), "w").close()
+                cfgp = os.path.join(lay2, "config")
+                t = open(cfgp).read().replace("repositoryformatversion = 0", "repositoryformatversion = 1")
+                open(cfgp, "w").write(t + '[remote "origin"]\n\turl = /nonexistent/x.git\n\tpromisor = true\n\tpartialclonefilter = blob:none\n'
+                                      '[extensions]\n\tpartialClone = origin\n')
+                compare("layout:promisor-pack-plus-local-objects", lay2)
         # alternates: half of the objects live in another object directory
         alt = os.path.join(d, "alt")
         shutil.copytree(g0, alt)
